@@ -53,8 +53,6 @@ CONSTANTS Pods,          \* set of pod names (strings)
           MaxSlot,
           MaxAtt,        \* saturation of the ghost counters
           MaxRestarts, MaxFlips, MaxLeaks,
-          MaxRefusals,   \* bound of the cycles with refused DELETEs
-          MaxPanics,     \* bound of the panicking bind attempts
           MaxLevel       \* bound of the breadth-first level for the (optional) CONSTRAINT DepthBound
 
 VARIABLES S,     \* the abstract state (record, see InitState)
@@ -146,7 +144,7 @@ CyclePosts(s) == IF ~s.up THEN {Cleaned(s)} ELSE Alloc(Cleaned(s), PendingSet(s)
 \* DELETE (goroutines), the ones that are not refused go through; its error fails Snapshot/OpenSession: no allocation
 RefusedSet(s, p) == IF p = "" THEN Stale(s) ELSE {p} \cap Stale(s)
 RefusedEnabled(s, p) == RefusedSet(s, p) # {}
-RefusedPost(s, p) == [CleanedSet(s, Stale(s) \ RefusedSet(s, p)) EXCEPT !.refusals = s.refusals + 1]
+RefusedPost(s, p) == CleanedSet(s, Stale(s) \ RefusedSet(s, p))
 
 (* ---- one reconcile of the BindRequest of p; `out` = the injected fault ---------------------------------- *)
 Reach(s, p) == s.br[p].ex /\ s.br[p].ph # "Succeeded" /\ s.alive[p] /\ ~s.bound[p] /\ s.up
@@ -177,8 +175,8 @@ BinderRuns(s, p, out, rule) ==
                 ELSE {s.dev[p]}                  \* every selected group labelled, then bound | bind panicked: no rollback
     IN {[post |-> [s EXCEPT !.br[p] = bN,
                             !.lab[p] = L,
-                            !.leaks = IF leak THEN s.leaks + 1 ELSE s.leaks,
-                            !.panics = IF panic THEN s.panics + 1 ELSE s.panics,
+                            \* attempts that left group labels behind without a rollback
+                            !.leaks = IF leak \/ (panic /\ IsFrac(s, p)) THEN s.leaks + 1 ELSE s.leaks,
                             !.bound[p] = s.bound[p] \/ (bindCalled /\ ~errc),
                             !.att[p] = IF bindCalled THEN Sat(s.att[p] + 1) ELSE s.att[p],
                             !.fl[p] = IF errc THEN Sat(s.fl[p] + 1) ELSE s.fl[p],
@@ -203,7 +201,7 @@ DrainPost(s) == [RestartPost(s) EXCEPT !.drain = TRUE]
 (* ---- the model -------------------------------------------------------------------------------------------- *)
 InitState(L, sh, present, persist) ==
   [lim |-> L, gpus |-> sh.gpus, req |-> sh.req, nd |-> sh.nd, persist |-> persist, drain |-> FALSE,
-   up |-> TRUE, flips |-> 0, restarts |-> 0, leaks |-> 0, refusals |-> 0, panics |-> 0,
+   up |-> TRUE, flips |-> 0, restarts |-> 0, leaks |-> 0,
    alive |-> [p \in Pods |-> p \in present], bound |-> [p \in Pods |-> FALSE],
    br |-> [p \in Pods |-> NoBr(0)], dev |-> [p \in Pods |-> {}], lab |-> [p \in Pods |-> {}],
    q |-> [p \in Pods |-> FALSE], att |-> [p \in Pods |-> 0], fl |-> [p \in Pods |-> 0]]
@@ -219,7 +217,7 @@ SchedCycle ==
 
 \* p = "" (every stale request refused) is only a label of its own when there are at least two stale requests
 SchedCycleRefused(p) ==
-  /\ ~S.drain /\ S.refusals < MaxRefusals /\ RefusedEnabled(S, p)
+  /\ ~S.drain /\ RefusedEnabled(S, p)
   /\ p = "" => Cardinality(Stale(S)) >= 2
   /\ S' = RefusedPost(S, p)
   /\ obs' = NoObs /\ act' = NoAct("SchedCycleRefused", p, "")
@@ -232,7 +230,7 @@ BinderAttempt(p, out) ==
   /\ ~Reach(S, p) => out = (IF S.persist THEN "fail" ELSE "ok")
   /\ out = "faillabel" => Reach(S, p) /\ IsFrac(S, p) /\ S.nd[p] = 2 /\ S.leaks < MaxLeaks
   \* environment: Bind panics only on a request that is not yet terminally failed (see PanicEnabled)
-  /\ out = "panic" => PanicEnabled(S, p) /\ S.panics < MaxPanics
+  /\ out = "panic" => PanicEnabled(S, p) /\ (IsFrac(S, p) => S.leaks < MaxLeaks)
   /\ \E r \in BinderRuns(S, p, out, PatchRule) : S' = r.post
   /\ obs' = NoObs /\ act' = NoAct("BinderAttempt", p, out)
 
@@ -289,7 +287,6 @@ TypeOK ==
   /\ S.lim \in Limits /\ [gpus |-> S.gpus, req |-> S.req, nd |-> S.nd] \in ShapeSet
   /\ S.persist \in BOOLEAN /\ S.drain \in BOOLEAN /\ S.up \in BOOLEAN
   /\ S.flips \in 0..MaxFlips /\ S.restarts \in 0..(MaxRestarts + 1) /\ S.leaks \in 0..MaxLeaks
-  /\ S.refusals \in 0..MaxRefusals /\ S.panics \in 0..MaxPanics
   /\ S.alive \in [Pods -> BOOLEAN] /\ S.bound \in [Pods -> BOOLEAN] /\ S.q \in [Pods -> BOOLEAN]
   /\ S.br \in [Pods -> BrType]
   /\ S.dev \in [Pods -> SUBSET Slots] /\ S.lab \in [Pods -> SUBSET Slots]
